@@ -8,6 +8,10 @@ rows = []
 st = subprocess.run(["git", "-C", "/repo", "status", "--porcelain", "--untracked-files=no"], capture_output=True, text=True).stdout
 if st.strip():
     print("/repo has local changes; refusing"); sys.exit(2)
+import shutil, tempfile
+# evidence files describe the unchanged tree: set them aside while mutated trees are checked
+EVB = tempfile.mkdtemp(prefix="evidence_backup_", dir=os.path.join(ROOT, ".work"))
+shutil.copytree(os.path.join(ROOT, "evidence"), os.path.join(EVB, "evidence"))
 for d in sorted(os.listdir(os.path.join(ROOT, "seeded"))):
     if sel and not any(d.startswith(s) for s in sel):
         continue
@@ -22,5 +26,6 @@ for d in sorted(os.listdir(os.path.join(ROOT, "seeded"))):
         rows.append((d, pid, "DETECTED exit=%d (%d VIOLATION lines%s)" % (p.returncode, len(v), ", some with concrete input" if any("no-failing" not in l for l in v) else "") if p.returncode == 1 and v else "MISSED exit=%d" % p.returncode))
     finally:
         subprocess.run(["git", "-C", "/repo", "checkout", "--", "."])
+shutil.rmtree(os.path.join(ROOT, "evidence")); shutil.move(os.path.join(EVB, "evidence"), os.path.join(ROOT, "evidence")); shutil.rmtree(EVB, ignore_errors=True)
 for r in rows:
     print("%-8s %-4s %s" % r)
